@@ -545,6 +545,10 @@ def c02_catalogue(quick):
              U(5, rejected=1), U(6, links=[11]),
              U(7), U(8, host='b.test'),                  # requisites: same host / foreign host
              U(9, host='b.test', links=[2]), U(10, rejected=1), U(11, links=[12]), U(12)]
+    # links that are only a fragment / only a query / empty: they name the page itself (or its query variant), nothing else
+    frag = [U(1, links=[2]), U(2, path='/dir/page.html', links=[dict(to=2, spelling='#top'), dict(to=2, spelling=''), 3]),
+            U(3, path='/dir/other.html', links=[dict(to=3, spelling='#'), dict(to=2, spelling='page.html#x')])]
+    out.append(scenario('fragment-only-links', frag, N=1))
     # robots.txt is redirected to a URL that a scope rule rejects: such a target is not requested
     rr = {'a.test': {'kind': 'rules', 'disallow': ['/none/'], 'via_redirect': {'path': '/rej/robots-file', 'body_len': 10}}}
     out.append(scenario('robots-redirected-to-rejected-url', [U(1, links=[2]), U(2)], dict(robots=1), N=1, robots=rr))
